@@ -481,4 +481,85 @@ theorem getSubtreeTree_refines (pids types : List Int) (xs : List A) (src : Src)
   simp [Py.len, Py.range]
 end getsub
 
+/-! ## `to_subtree` on all columns -/
+section tosub
+variable {A Src Nm : Type} [Inhabited A] [Inhabited Src] [Inhabited Nm]
+
+theorem for1T_loop : ∀ (rm : List Int) (v : to_subtree_tree.V A Src Nm),
+    (match RefineCut.markAll v.new_ids rm with
+     | some l => ∃ i', forEach to_subtree_tree.for1 rm v = .next { v with new_ids := l, i := i' }
+     | none => forEach to_subtree_tree.for1 rm v = .err) := by
+  intro rm
+  induction rm with
+  | nil => intro v; exact ⟨v.i, by simp [forEach]⟩
+  | cons i is ih =>
+    intro v
+    simp only [RefineCut.markAll]
+    cases hs : setIdx v.new_ids i (-2) with
+    | none => simp [forEach, to_subtree_tree.for1, Py.bind, hs]
+    | some l' =>
+      have := ih { v with i := i, new_ids := l' }
+      simp only [Option.bind_some]
+      cases hm : RefineCut.markAll l' is with
+      | none =>
+        simp only [hm] at this
+        simp only [forEach, to_subtree_tree.for1, Py.bind, hs]
+        exact this
+      | some l'' =>
+        simp only [hm] at this
+        obtain ⟨i', e⟩ := this
+        refine ⟨i', ?_⟩
+        simp only [forEach, to_subtree_tree.for1, Py.bind, hs]
+        rw [e]
+
+/-- **`to_subtree` on all columns factors through the topology-level translation** (the one `RefineCut.toSubtree_refines` is about), on
+EVERY input: the same marking loop and `propagate_removal`, then `to_subtree_impl` = compaction + the gather of every column -/
+theorem toSubtreeTree_eq (fuel : Nat) (ids pids types : List Int) (xs : List A) (src : Src) (nm : Nm) (rm out0 : List Int) :
+    to_subtree_tree fuel ids pids types xs src nm rm out0 =
+      (to_subtree fuel ids pids rm).bind (gatherBy ids pids types xs src nm) := by
+  have hT := for1T_loop rm { (default : to_subtree_tree.V A Src Nm) with ids := ids, pids := pids, types := types, xs := xs, t_source := src, t_names := nm, removals := rm, out_mapping := out0, new_ids := ids }
+  have hC := RefineCut.for1_loop rm { (default : to_subtree.V) with tids := ids, tpids := pids, removals := rm, new_ids := ids }
+  simp only [to_subtree_tree, to_subtree_tree.body, to_subtree, to_subtree.body, Py.seq, Py.bind, toSubtreeImpl_eq]
+  cases hm : RefineCut.markAll ids rm with
+  | none =>
+    simp only [hm] at hT hC
+    simp [hT, hC, Py.finish]
+  | some l =>
+    simp only [hm] at hT hC
+    obtain ⟨i1, e1⟩ := hT
+    obtain ⟨i2, e2⟩ := hC
+    simp only [e1, e2]
+    cases propagate_removal fuel (l, pids) with
+    | none => simp [Py.finish]
+    | some sub =>
+      simp only
+      cases to_sub_topology sub with
+      | none => simp [Py.finish]
+      | some r =>
+        cases h1 : Py.take ids r.2 <;> cases h2 : Py.take pids r.2 <;> cases h3 : Py.take types r.2 <;> cases h4 : Py.take xs r.2 <;>
+          simp [Py.finish, gatherBy, h1, h2, h3, h4]
+
+/-- **`to_subtree` as translated, on all columns, IS the model**: on every tree table whose columns all have `|pids|` rows and every list
+of node ids, the result is the model's `toSubtree` (characterised by `C06.toSubtree_kept`: precisely the nodes neither removed nor below
+a removed node): ids `0..k−1`, the model's parents, every further column gathered at the kept rows in order, `out_mapping` = the new→old
+mapping, `source` / `names` handed on, input columns unchanged -/
+theorem toSubtreeTree_refines (pids types : List Int) (xs : List A) (src : Src) (nm : Nm) (r : Rose) (h : IsTree r pids) (rm : List Int)
+    (hrm : ∀ i ∈ rm, 0 ≤ i ∧ i.toNat < pids.length) (h3 : types.length = pids.length) (h4 : xs.length = pids.length) (out0 : List Int) (F : Nat) :
+    to_subtree_tree (2 * r.size + F + 1) (rangeI pids.length) pids types xs src nm rm out0 =
+      (toSubtree pids rm).map fun t =>
+        (t.mapping, rangeI pids.length, pids, types, xs,
+          ((t.mapping.length : Int), (Py.range (t.mapping.length : Int), t.newPid, takeRows types t.mapping, takeRows xs t.mapping), src, nm)) := by
+  rw [toSubtreeTree_eq, RefineCut.toSubtree_refines pids r h rm hrm F]
+  obtain ⟨res, hr, hmap, _, _⟩ := C06.toSubtree_kept pids r h rm
+  have hmem : ∀ i ∈ res.mapping, 0 ≤ i ∧ i.toNat < pids.length := by
+    intro i hi
+    rw [hmap] at hi
+    exact (C06.mem_rangeI pids.length i).1 (List.mem_filter.1 hi).1
+  rw [hr]
+  simp only [Option.map_some, Option.bind_some, gatherBy]
+  rw [take_inrange (rangeI pids.length) res.mapping (by simpa [rangeI] using hmem), take_inrange pids res.mapping hmem,
+    take_inrange types res.mapping (by rw [h3]; exact hmem), take_inrange xs res.mapping (by rw [h4]; exact hmem)]
+  simp [Py.len, Py.range]
+end tosub
+
 end RefineShortTip
